@@ -31,9 +31,13 @@ class TaskAndThreadKeeper:
     def init(self, hook: PluginManager) -> None:
         self._hook = hook
 
-    @hookimpl
+    @hookimpl(trylast=True)
     @contextmanager
     def context(self) -> Iterator[None]:
+        # NOTE: trylast=True so as to be entered last and exited first. On exit,
+        # this context waits for the threads and tasks that outlive the script,
+        # which are still traced, can still be prompted, and still need the other
+        # plugins, e.g., the relay of the Pdb commands.
         self._callback = ThreadTaskDoneCallback(done=self._on_end)
         self._main_thread = threading.current_thread()
         try:
